@@ -7,6 +7,8 @@ package strategy
 
 import (
 	"context"
+	"encoding/json"
+	"fmt"
 	"sync"
 	"time"
 
@@ -52,6 +54,11 @@ func compareWithExtendedDaemonsetSettingOverwrite(pod *corev1.Pod, node *NodeIte
 	if node.ExtendedDaemonsetSetting != nil {
 		specCopy := pod.Spec.DeepCopy()
 		for id, container := range specCopy.Containers {
+			// A resources annotation on the node wins over the setting when the pod is created; such a container is
+			// compared through the node annotations hash, not against the setting.
+			if hasNodeResourcesOverwrite(pod, node, container.Name) {
+				continue
+			}
 			for _, container2 := range node.ExtendedDaemonsetSetting.Spec.Containers {
 				if container.Name == container2.Name {
 					for key, val := range container2.Resources.Limits {
@@ -77,6 +84,26 @@ func compareWithExtendedDaemonsetSettingOverwrite(pod *corev1.Pod, node *NodeIte
 	}
 
 	return true
+}
+
+// hasNodeResourcesOverwrite returns true if the node carries a well-formed resources annotation for this
+// container of the ExtendedDaemonSet the pod belongs to (see pod.overwriteResourcesFromNode).
+func hasNodeResourcesOverwrite(pod *corev1.Pod, node *NodeItem, containerName string) bool {
+	if node.Node == nil {
+		return false
+	}
+	edsName, found := pod.Labels[datadoghqv1alpha1.ExtendedDaemonSetNameLabelKey]
+	if !found {
+		return false
+	}
+	key := fmt.Sprintf(datadoghqv1alpha1.ExtendedDaemonSetRessourceNodeAnnotationKey, pod.Namespace, edsName, containerName)
+	val, found := node.Node.GetAnnotations()[key]
+	if !found {
+		return false
+	}
+	var resources corev1.ResourceRequirements
+
+	return json.Unmarshal([]byte(val), &resources) == nil
 }
 
 func compareSpecTemplateMD5Hash(hash string, pod *corev1.Pod) bool {
